@@ -80,6 +80,19 @@ func c19(c *wk.Ctx) {
 		}
 		idx++
 	}
+	// fault at the source: when the OS random source fails at the k-th draw, no secret may be produced from anywhere
+	// else — the exchange must stop (error or panic on the caller's goroutine) before a secret that the source did
+	// not serve reaches a sink
+	for k := 0; k < c.Pick(6, 18); k++ {
+		if c.Mine(idx) {
+			c.Begin(idx, fmt.Sprintf("source failure at draw %d", k%3))
+			t.Reset()
+			t.FailFrom(k % 3)
+			c19sourceFailure(c, idx, c.Rand(idx), t, k%3)
+			t.Reset()
+		}
+		idx++
+	}
 	// the reseed clause: identical seeding of the global math/rand AFTER the client object exists must not
 	// reproduce the nonces (differential pair)
 	for k := 0; k < c.Pick(2, 10); k++ {
@@ -215,4 +228,60 @@ func c19seeded(c *wk.Ctx, idx int, seed int64) (string, string, string) {
 	defer safeDisconnect(m)
 	n, nn, gb, _ := hsEvents(w)
 	return n, nn, gb
+}
+
+func c19sourceFailure(c *wk.Ctx, idx int, r *mrand.Rand, t *rngTee, failAt int) {
+	w := newWorld(c, idx)
+	defer w.close()
+	srv := w.server(refserver.HandlerFunc(func(cn *refserver.Conn, in *mtp.Inner) {}))
+	m, err := w.client(srv.Addr, w.sessionPath("s"), srv)
+	if err != nil {
+		return
+	}
+	mrand.Seed(int64(4242 + failAt)) // whatever a fallback generator might be, make it reproducible
+	var cerr error
+	var pan bool
+	done := withTimeout(30*time.Second, func() { pan, _, _ = wk.Guard(func() { cerr = m.CreateConnection() }) })
+	defer safeDisconnect(m)
+	draws := t.Snapshot()
+	// what reached the sinks?
+	var nonce, newNonce, gb string
+	w.mu.Lock()
+	for _, e := range w.evs {
+		var d map[string]interface{}
+		json.Unmarshal(e.Data, &d)
+		switch e.Ev {
+		case "hs.req_pq":
+			nonce, _ = d["nonce"].(string)
+		case "hs.req_dh":
+			newNonce, _ = d["new_nonce"].(string)
+		case "hs.done":
+			gb, _ = d["g_b"].(string)
+		}
+	}
+	w.mu.Unlock()
+	c.Count("source_failure.cases", 1)
+	if pan || cerr != nil {
+		c.Count("source_failure.exchange_stopped", 1)
+	}
+	_ = done
+	check := func(name, hexv string, exponent bool) {
+		if hexv == "" {
+			return
+		}
+		b, _ := hex.DecodeString(hexv)
+		ok := false
+		if exponent {
+			ok, _ = explainedExponent(draws, int64(srv.G), b)
+		} else {
+			ok, _ = explainedWindow(draws, b)
+		}
+		if !ok {
+			c.Viol("C19", idx, "unexplained-after-source-failure/"+name, fmt.Sprintf("the OS random source failed at draw %d, yet a %s reached the wire that the source never served (a fallback generator is in use)", failAt, name), drawsBrief(draws))
+		}
+	}
+	check("nonce", nonce, false)
+	check("new_nonce", newNonce, false)
+	check("dh-exponent", gb, true)
+	c.Distinct("source-failure", failAt, nonce != "", newNonce != "", gb != "")
 }
